@@ -31,6 +31,7 @@ func checkC20(c *Ctx) {
 	c.checkResultNotReallocated()
 	c.checkScalarCodecPairs()
 	c.checkP2PNameExactLength()
+	c.checkParseP2PZeroOnError()
 	c.checkActingUserNotSession("C20.4d-p2p-name-of-acting-user", "p2p-name")
 }
 
